@@ -15,7 +15,11 @@
    the descriptor classes of the TRIPOLI-4 sub-surfaces it converts to (two
    SurfaceT4 objects are == exactly when their classes are equal).  Cells are
    intersections of signed surface numbers of single-part surfaces (the scope of
-   the tie); each yields one VolumeT4.  Executable; proofs are in C16/Proofs.v. *)
+   the tie); each yields one VolumeT4.  A cell may carry a TRCL: each of its
+   literals is then replaced by a copy of the surface under a fresh key
+   (Kernel/Volume/CellConversion.py pot_transform, Transformation.py
+   transformation)             [trcl_lits, apply_trcls, run_t].
+   Executable; proofs are in C16/Proofs.v. *)
 From Coq Require Import List NArith ZArith Bool String Ascii.
 From T4V Require Import Base.Str.
 Import ListNotations.
@@ -255,17 +259,90 @@ Record config := mkCfg { skip_dedup : bool; skip_bc : bool }.
 
 Definition output := (list (N * N) * list (kind * N))%type.
 
+(* what happens once the surface dictionary is complete: the geometry is
+   written first (its errors win), then the block *)
+Definition finish (cfg : config) (t : table) (cells : list cell) : res output :=
+  match geometry (negb (skip_dedup cfg)) t cells with
+  | Err e => Err e
+  | Ok surfs =>
+      if skip_bc cfg then Ok (surfs, [])
+      else match bc_entries t with
+           | Err e => Err e
+           | Ok bcs => Ok (surfs, bcs)
+           end
+  end.
+
 Definition run (cfg : config) (cards : list scard) (cells : list cell) : res output :=
   match parse_cards cards [] with
   | Err e => Err e
+  | Ok t => finish cfg t cells
+  end.
+
+(* ---- cells with TRCL ---------------------------------------------------- *)
+
+(* CellConversion.pot_transform on a surface leaf: every literal of a cell
+   with TRCL gets a copy of its surface under a fresh key (new_surf_key is
+   incremented first), appended to dic_surf_mcnp and dic_surf_t4;
+   transformation() hands the boundary flag of the original to the copy.  The
+   descriptor classes of the transformed copy come with the literal. *)
+Record lit := mkL { l_z : Z; l_cls : N; l_aux : list N }.
+
+(* a cell card: converted or not (importance 0 cells stay in the cell
+   dictionary and their TRCL is applied all the same), with TRCL or not *)
+Record tcell := mkC { tc_id : N; tc_conv : bool; tc_trcl : bool; tc_lits : list lit }.
+
+Definition sign_key (z : Z) (k : N) : Z :=
+  if Z.ltb z 0 then Z.opp (Z.of_N k) else Z.of_N k.
+
+Fixpoint trcl_lits (ls : list lit) (t : table) (key : N) : res (list Z * table * N) :=
+  match ls with
+  | [] => Ok ([], t, key)
+  | l :: r =>
+      match dict_get (Z.abs_N (l_z l)) t with
+      | None => Err EKey                      (* self.dic_surf_mcnp[abs(p_tree)] *)
+      | Some e =>
+          let k' := N.succ key in
+          match trcl_lits r (t ++ [(k', mkE (e_flag e) (e_mcnp e) (l_cls l) (l_aux l))])%list k' with
+          | Ok (zs, t', key') => Ok (sign_key (l_z l) k' :: zs, t', key')
+          | Err x => Err x
+          end
+      end
+  end.
+
+(* the TRCL loop of construct_volume_t4, cells in card order; the result keeps
+   for each cell whether it is converted *)
+Fixpoint apply_trcls (cs : list tcell) (t : table) (key : N)
+  : res (list (bool * cell) * table) :=
+  match cs with
+  | [] => Ok ([], t)
+  | c :: r =>
+      if tc_trcl c then
+        match trcl_lits (tc_lits c) t key with
+        | Err x => Err x
+        | Ok (zs, t', key') =>
+            match apply_trcls r t' key' with
+            | Ok (cells, t'') => Ok ((tc_conv c, (tc_id c, zs)) :: cells, t'')
+            | Err x => Err x
+            end
+        end
+      else
+        match apply_trcls r t key with
+        | Ok (cells, t') => Ok ((tc_conv c, (tc_id c, map l_z (tc_lits c))) :: cells, t')
+        | Err x => Err x
+        end
+  end.
+
+Definition converted (cells : list (bool * cell)) : list cell :=
+  map snd (filter fst cells).
+
+(* free_surf_key = max key + 1 (max() of an empty dictionary is a ValueError) *)
+Definition run_t (cfg : config) (cards : list scard) (tcells : list tcell) : res output :=
+  match parse_cards cards [] with
+  | Err e => Err e
+  | Ok [] => Err EValue
   | Ok t =>
-      match geometry (negb (skip_dedup cfg)) t cells with
+      match apply_trcls tcells t (N.succ (max_key t)) with
       | Err e => Err e
-      | Ok surfs =>
-          if skip_bc cfg then Ok (surfs, [])
-          else match bc_entries t with
-               | Err e => Err e
-               | Ok bcs => Ok (surfs, bcs)
-               end
+      | Ok (cells, t') => finish cfg t' (converted cells)
       end
   end.
